@@ -96,6 +96,11 @@ def main():
             elif c == 'X':
                 os._exit(int(arg))
             elif c == 'K':
+                try:
+                    # Python starts with SIGPIPE/SIGXFSZ ignored
+                    signal.signal(int(arg), signal.SIG_DFL)
+                except (OSError, ValueError):
+                    pass
                 os.kill(os.getpid(), int(arg))
                 send('k')
             elif c == 'R':
